@@ -1,8 +1,11 @@
 // Unit c25_rounding -- property C25 "Rounding follows the declared rounding modes"
 // Real code: radix-common/src/math/rounding_mode.rs (RoundingMode, ResolvedRoundingStrategy::{from_mode,
 // from_midpoint_ordering, towards_zero, away_from_zero}), radix-common/src/math/decimal.rs
-// (Decimal::{checked_round, checked_floor, checked_ceiling}) over the ASSUMED mathematical contracts of
-// the bnum wrappers (shims/bigint.rs: `%`, `pow`, `<<`, `>>`, checked_add/sub, cmp).
+// (Decimal::{checked_round, checked_floor, checked_ceiling}), radix-common/src/math/precise_decimal.rs
+// (PreciseDecimal::{checked_round, checked_floor, checked_ceiling}) and
+// radix-engine-interface/src/blueprints/resource/mod.rs (<Decimal as ForWithdrawal>::for_withdrawal)
+// over the ASSUMED mathematical contracts of the bnum wrappers (shims/bigint.rs: `%`, `pow`, `<<`, `>>`,
+// checked_add/sub, cmp).
 use vstd::prelude::*;
 verus! {
 /*@include shims/rt.rs @*/
